@@ -368,6 +368,84 @@ Definition passwd2_update_level2 (c : cfg) (perm : Z) (isSet : bool) (now : Z) (
       end
   end.
 
+(* ------------------------------------------------------------------ histories: several writes in one process,
+   some of them refused by the operating system (ENOSPC, EFBIG, EBADF: nothing reaches the file). The only state a
+   history carries from one call to the next is the files themselves: types.BinaryWrite keeps nothing. *)
+
+Definition ERR_IO : Z := 4.
+
+Inductive dev : Type := DevOk | DevRefuse.
+Definition on_dev (d : dev) (r : upd (list Z)) : upd (list Z) :=       (* the uid check precedes the open *)
+  match d, r with DevRefuse, UOk _ => UErr ERR_IO | _, _ => r end.
+
+(* cmbbs.PasswdUpdate: the whole record at Sizeof*(uid-1) *)
+Definition passwd_update_record (c : cfg) (uid : Z) (v : value) (f : list Z) : upd (list Z) :=
+  if uid_is_valid c uid
+  then UOk (write_at (Z.to_nat (go_size (userec c) * (uid - 1))) (encode (userec c) v) f)
+  else UErr ERR_INVALID_UID.
+
+Record hstate : Type := { st_pw : list Z; st_pw2 : option (list Z) }.     (* .PASSWDS, one user's .PASSWD2 *)
+
+Inductive step : Type :=
+| SField (fname : string) (d : dev) (uid : Z) (v : value)      (* PasswdUpdatePasswd / PasswdUpdateEmail / SetUMoney *)
+| SRecord (d : dev) (uid : Z) (v : value)                      (* PasswdUpdate *)
+| SLevel2 (perm : Z) (isSet : bool) (now : Z).                 (* PasswdUpdateUserLevel2 *)
+
+Definition hstep (c : cfg) (s : step) (st : hstate) : (Z * Z) * hstate :=
+  match s with
+  | SField fname d uid v =>
+      match on_dev d (passwd_update_field c fname uid v (st_pw st)) with
+      | UOk f => ((ST_OK, 0), {| st_pw := f; st_pw2 := st_pw2 st |})
+      | UErr e => ((ST_ERR, e), st)
+      end
+  | SRecord d uid v =>
+      match on_dev d (passwd_update_record c uid v (st_pw st)) with
+      | UOk f => ((ST_OK, 0), {| st_pw := f; st_pw2 := st_pw2 st |})
+      | UErr e => ((ST_ERR, e), st)
+      end
+  | SLevel2 perm isSet now =>
+      match passwd2_update_level2 c perm isSet now (st_pw2 st) with
+      | UOk f => ((ST_OK, 0), {| st_pw := st_pw st; st_pw2 := Some f |})
+      | UErr e => ((ST_ERR, e), st)
+      end
+  end.
+
+Fixpoint run_history (c : cfg) (h : list step) (st : hstate) : list (Z * Z) * hstate :=
+  match h with
+  | [] => ([], st)
+  | s :: r => let '(o, st1) := hstep c s st in
+              let '(os, st2) := run_history c r st1 in (o :: os, st2)
+  end.
+
+Definition step_accepted (s : step) : bool :=
+  match s with SField _ DevRefuse _ _ | SRecord DevRefuse _ _ => false | _ => true end.
+
+(* the byte ranges of .PASSWDS a history may write: (offset, length) of every accepted, valid step *)
+Definition step_range (c : cfg) (s : step) : list (nat * nat) :=
+  match s with
+  | SField fname DevOk uid v =>
+      match field_index (userec c) fname with
+      | Some i => [(Z.to_nat (go_size (userec c) * (uid - 1) + field_off (userec c) i),
+                    length (encode (field_ty (userec c) i) v))]
+      | None => []
+      end
+  | SRecord DevOk uid v => [(Z.to_nat (go_size (userec c) * (uid - 1)), length (encode (userec c) v))]
+  | _ => []
+  end.
+Definition touched (c : cfg) (h : list step) : list (nat * nat) := flat_map (step_range c) h.
+Definition outside (p : nat) (rs : list (nat * nat)) : Prop :=
+  forall a n, In (a, n) rs -> (p < a \/ a + n <= p)%nat.
+
+(* types.BinaryWrite(writer, value): the image goes to the writer in one piece. room = None: the writer takes
+   everything; Some k: it takes k bytes and refuses the rest. Returns the status and what reached the writer. *)
+Definition binary_write_to (t : rty) (v : value) (room : option nat) : (Z * Z) * list Z :=
+  let img := encode t v in
+  match room with
+  | None => ((ST_OK, 0), img)
+  | Some k => if (length img <=? k)%nat then ((ST_OK, 0), img) else ((ST_ERR, ERR_IO), firstn k img)
+  end.
+Definition sink_room (k : Z) : option nat := if k =? -1 then None else Some (Z.to_nat k).
+
 (* ------------------------------------------------------------------ wire *)
 
 Definition string_of_bytes (l : list Z) : string :=
@@ -425,10 +503,69 @@ Fixpoint layout_wire (fs : list (string * rty)) (go_o packed_o : list Z) : list 
 Definition wire_upd (r : upd (list Z)) : list Z :=
   match r with UOk f => ST_OK :: f | UErr e => [ST_ERR; e] end.
 
+Definition dev_of (z : Z) : dev := if z =? 0 then DevOk else DevRefuse.
+Definition typed (t : rty) (leaves : list Z) : option value :=
+  match unflatten t leaves with
+  | Some (v, []) => if wt t v then Some v else None
+  | _ => None
+  end.
+Definition parse_field_step (c : cfg) (fname : string) (d uid : Z) (pay : list Z) : option step :=
+  match field_index (userec c) fname with
+  | Some i => option_map (SField fname (dev_of d) uid) (typed (field_ty (userec c) i) pay)
+  | None => None
+  end.
+Definition parse_step (c : cfg) (g : list Z) : option step :=
+  match g with
+  | 1 :: d :: uid :: pay => parse_field_step c "PasswdHash" d uid pay
+  | 2 :: d :: uid :: pay => parse_field_step c "Email" d uid pay
+  | 3 :: d :: uid :: pay => parse_field_step c "Money" d uid pay
+  | 4 :: d :: uid :: pay => option_map (SRecord (dev_of d) uid) (typed (userec c) pay)
+  | [5; _; _; perm; isSet; now] => Some (SLevel2 perm (negb (isSet =? 0)) now)
+  | _ => None
+  end.
+Fixpoint parse_steps (c : cfg) (gs : list (list Z)) : option (list step) :=
+  match gs with
+  | [] => Some []
+  | g :: r => match parse_step c g, parse_steps c r with
+              | Some s, Some h => Some (s :: h)
+              | _, _ => None
+              end
+  end.
+Definition wire_status (o : Z * Z) : list Z := [fst o; snd o].
+Definition wire_hstate (st : hstate) : list Z :=
+  (lenZ (st_pw st) :: st_pw st) ++ match st_pw2 st with None => [0; 0] | Some b => 1 :: lenZ b :: b end.
+
+(* op 11: name leaves [sink] name leaves [sink] ... *)
+Fixpoint bw_history (e : list (string * rty)) (gs : list (list Z)) : option (list Z) :=
+  match gs with
+  | [] => Some []
+  | name :: rest1 =>
+      match rest1 with
+      | leaves :: rest2 =>
+          match rest2 with
+          | [k] :: r =>
+              match lookup (string_of_bytes name) e with
+              | Some t =>
+                  match typed t leaves, bw_history e r with
+                  | Some v, Some out =>
+                      let '(o, got) := binary_write_to t v (sink_room k) in
+                      Some (wire_status o ++ (lenZ got :: got) ++ out)
+                  | _, _ => None
+                  end
+              | None => None
+              end
+          | _ => None
+          end
+      | [] => None
+      end
+  end.
+
 (* op 1 layout of a struct: go_size packed_size go_align nfields (len name.. go_off packed_off go_sz packed_sz)*
    op 2 encode a record value given by its leaves; op 3 decode bytes to leaves
    op 4 partial update of .PASSWDS: [cfg; uid] field-name value-leaves file
-   op 5 level-2 update of .PASSWD2: [cfg; exists; perm; isSet; now] file *)
+   op 5 level-2 update of .PASSWD2: [cfg; exists; perm; isSet; now] file
+   op 10 a history of updates, some refused: [cfg; pin] .PASSWDS [exists] .PASSWD2 step...   (pin: scheduling of the driver only)
+   op 11 a history of types.BinaryWrite calls to writers of limited room: [cfg; pin] (name leaves [sink])... *)
 Definition run_case (args : list (list Z)) : list Z :=
   match args with
   | [[1]; [c]; name] =>
@@ -469,5 +606,17 @@ Definition run_case (args : list (list Z)) : list Z :=
       end
   | [[5]; [c; ex; perm; isSet; now]; f] =>
       wire_upd (passwd2_update_level2 (cfg_of c) perm (negb (isSet =? 0)) now (if ex =? 0 then None else Some f))
+  | [10] :: [c; _] :: f :: [ex] :: f2 :: steps =>
+      match parse_steps (cfg_of c) steps with
+      | Some h =>
+          let '(outs, st) := run_history (cfg_of c) h {| st_pw := f; st_pw2 := if ex =? 0 then None else Some f2 |} in
+          ST_OK :: flat_map wire_status outs ++ wire_hstate st
+      | None => [ST_BADCASE]
+      end
+  | [11] :: [c; _] :: gs =>
+      match bw_history (env (cfg_of c)) gs with
+      | Some out => ST_OK :: out
+      | None => [ST_BADCASE]
+      end
   | _ => [ST_BADCASE]
   end.
